@@ -87,6 +87,9 @@ func DecodeHybrid(b []byte, width int, numValues int) ([]uint8, *LevelInfo, erro
 			if groups == 0 {
 				return nil, nil, fmt.Errorf("levels: bit-packed run with zero groups at byte %d", start)
 			}
+			if len(out)+groups*8 > numValues+7 {
+				return nil, nil, fmt.Errorf("levels: bit-packed run of %d groups after %d decoded values overshoots num_values %d by 8 or more", groups, len(out), numValues)
+			}
 			nb := groups * width
 			if pos+nb > len(b) {
 				return nil, nil, fmt.Errorf("levels: bit-packed run of %d groups needs %d bytes, %d left", groups, nb, len(b)-pos)
@@ -112,8 +115,9 @@ func DecodeHybrid(b []byte, width int, numValues int) ([]uint8, *LevelInfo, erro
 			if v >= 1<<uint(width) {
 				return nil, nil, fmt.Errorf("levels: RLE value %d does not fit width %d", v, width)
 			}
-			if len(out)+cnt > numValues+1<<20 {
-				return nil, nil, fmt.Errorf("levels: RLE run of %d values is far beyond num_values %d", cnt, numValues)
+			if len(out)+cnt > numValues {
+				// (an RLE run cannot carry padding; fail before materialising a huge run)
+				return nil, nil, fmt.Errorf("levels: RLE run of %d values after %d decoded exceeds num_values %d", cnt, len(out), numValues)
 			}
 			for i := 0; i < cnt; i++ {
 				out = append(out, uint8(v))
